@@ -431,6 +431,9 @@ def get_model_parser(top_rule, comments_model, **kwargs):
 
                 # Used to keep track of user class instances
                 self._user_class_inst = []
+                # (user class, id) of each allocated instance. Used to drop
+                # collected attributes if the load fails.
+                self._user_class_objs = []
 
                 self._replace_user_attr_methods()
 
@@ -448,6 +451,7 @@ def get_model_parser(top_rule, comments_model, **kwargs):
             except:  # noqa
                 # Restore of user classes replaced attr methods
                 self._restore_user_attr_methods()
+                self._discard_user_class_objs()
                 raise
 
             finally:
@@ -509,12 +513,26 @@ def get_model_parser(top_rule, comments_model, **kwargs):
                     self._replace_user_attr_methods_for_class(user_class)
                 else:
                     user_class._tx_instrumented += 1
+            self._attr_methods_replaced = True
+
+        def _discard_user_class_objs(self):
+            """
+            Drop attributes collected for user class instances allocated by
+            this parser (used when the load fails).
+            """
+            for user_class, obj_id in getattr(self, "_user_class_objs", []):
+                user_class._tx_obj_attrs.pop(obj_id, None)
+            self._user_class_objs = []
 
         def _restore_user_attr_methods(self):
             """
             Restore original get/set/del(attr) methods on user
-            classes.
+            classes. Undoes one call of `_replace_user_attr_methods` of this
+            parser, however often it is called.
             """
+            if not getattr(self, "_attr_methods_replaced", False):
+                return
+            self._attr_methods_replaced = False
             for user_class in self.metamodel.user_classes.values():
                 if hasattr(user_class, "_tx_instrumented"):
                     user_class._tx_instrumented -= 1
@@ -661,6 +679,7 @@ def parse_tree_to_objgraph(
                 # So that nested object get correct reference
                 inst = user_class.__new__(user_class)
                 user_class._tx_obj_attrs[id(inst)] = {}
+                parser._user_class_objs.append((user_class, id(inst)))
                 is_user = True
 
             else:
@@ -1013,6 +1032,7 @@ def parse_tree_to_objgraph(
                 # (remove all of them, not only the model with errors,
                 # since, models with errors may be included in other models)
                 remove_models_from_repositories(models, models)
+                _abort_user_class_handling(models)
                 raise
 
         if metamodel.textx_tools_support and type(model) not in PRIMITIVE_PYTHON_TYPES:
@@ -1107,6 +1127,21 @@ def _remove_all_affected_models_in_construction(model):
         filter(lambda x: hasattr(x, "_tx_reference_resolver"), all_affected_models)
     )
     remove_models_from_repositories(all_affected_models, models_to_be_removed)
+    _abort_user_class_handling(models_to_be_removed)
+
+
+def _abort_user_class_handling(models):
+    """
+    The load of the given models failed. Each of them was parsed by its own
+    parser, which has replaced the attribute methods of the user classes and
+    collects the attributes of their instances. Undo both for all of them
+    (e.g. for already parsed imported models).
+    """
+    for model in models:
+        parser = getattr(model, "_tx_parser", None)
+        if parser is not None:
+            parser._restore_user_attr_methods()
+            parser._discard_user_class_objs()
 
 
 class ReferenceResolver:
